@@ -84,15 +84,15 @@ type Op struct {
 	Kind   string   `json:"kind"`
 	Pool   string   `json:"pool,omitempty"`
 	Branch string   `json:"branch,omitempty"`
-	Name   string   `json:"name,omitempty"`   // new name / child branch / predicate / zson data
-	Key    string   `json:"key,omitempty"`    // createpool: sort key spec e.g. "k:asc"
-	Thresh int64    `json:"thresh,omitempty"` // createpool
-	Stride int      `json:"stride,omitempty"` // createpool
-	Idx    []int    `json:"idx,omitempty"`    // object indices (canonical order) or commit index
-	At     int      `json:"at,omitempty"`     // createbranch: index into main's commit path from root (-1 = tip, -2 = nil)
-	Vec    bool     `json:"vec,omitempty"`    // compact: write vectors
-	Data   string   `json:"data,omitempty"`   // load: ZSON text
-	IDs    []string `json:"ids,omitempty"`    // explicit ids (resolved beforehand)
+	Name   string   `json:"name,omitempty"`    // new name / child branch / predicate / zson data
+	Key    string   `json:"key,omitempty"`     // createpool: sort key spec e.g. "k:asc"
+	Thresh int64    `json:"thresh,omitempty"`  // createpool
+	Stride int      `json:"stride,omitempty"`  // createpool
+	Idx    []int    `json:"idx,omitempty"`     // object indices (canonical order) or commit index
+	At     int      `json:"at,omitempty"`      // createbranch: index into main's commit path from root (-1 = tip, -2 = nil)
+	Vec    bool     `json:"vec,omitempty"`     // compact: write vectors
+	Data   string   `json:"data,omitempty"`    // load: ZSON text
+	IDs    []string `json:"ids,omitempty"`     // explicit ids (resolved beforehand)
 	PoolID string   `json:"pool_id,omitempty"` // pool id resolved beforehand (API-level calls take ids)
 }
 
